@@ -353,7 +353,9 @@ pub fn c06(seed: u64, tier: Tier) -> Vec<Episode> {
         st.push(Step::Stats { h: 0 });
     }
     let checks = Checks { growth_rule: true, post_update: true, decode_on_close: true, accounting: true, decoder_scope: "storage".into(), ..Default::default() };
-    vec![base_episode("C06", name, seed, maps, st, checks)]
+    let mut ep = base_episode("C06", name, seed, maps, st, checks);
+    ep.buggify = buggify(&mut g, seed);
+    vec![ep]
 }
 
 /// buffer settings including ones small enough to force eviction
@@ -434,7 +436,11 @@ pub fn c07(seed: u64, tier: Tier, index: u64) -> Vec<Episode> {
                 *params = Some(vec![Params { buckets: pick_buckets(&mut r, thorough), htx: tight_buf(&mut r), key: tight_buf(&mut r), val: tight_buf(&mut r) }]);
             }
         }
-        out.push(base_episode("C07", "configurations", seed, maps, steps, checks.clone()));
+        let mut ep = base_episode("C07", "configurations", seed, maps, steps, checks.clone());
+        if r.chance(3, 10) {
+            ep.buggify = Some(BuggifyCfg { seed: mix(&[seed, 0xb066, c as u64]), short_write: *r.pick(&[0u32, 30, 150]), short_read: *r.pick(&[0u32, 30, 150]), eintr: *r.pick(&[0u32, 20, 100]), kinds: [r.chance(2, 3), r.chance(2, 3), r.chance(2, 3)] });
+        }
+        out.push(ep);
     }
     out
 }
@@ -511,7 +517,9 @@ pub fn c08(seed: u64, tier: Tier) -> Vec<Episode> {
         }
     }
     let checks = Checks { model: true, audit_every: 16, post_update: true, panics: true, decode_on_close: true, decoder_scope: "contents".into(), ..Default::default() };
-    vec![base_episode("C08", "collision-chain", seed, maps, st, checks)]
+    let mut ep = base_episode("C08", "collision-chain", seed, maps, st, checks);
+    ep.buggify = buggify(&mut g, seed);
+    vec![ep]
 }
 
 /// C09 sweep windows: (is_key_sweep, first length, count)
@@ -612,7 +620,9 @@ pub fn c09(seed: u64, tier: Tier, index: u64) -> Vec<Episode> {
     }
     st.push(Step::Audit);
     let checks = Checks { model: true, post_update: true, sentinel: true, decode_on_close: true, decoder_scope: "fit".into(), ..Default::default() };
-    vec![base_episode("C09", if is_key { "key-length-sweep" } else { "value-length-sweep" }, seed, maps, st, checks)]
+    let mut ep = base_episode("C09", if is_key { "key-length-sweep" } else { "value-length-sweep" }, seed, maps, st, checks);
+    ep.buggify = buggify(&mut g, seed);
+    vec![ep]
 }
 
 pub fn c10(seed: u64, tier: Tier) -> Vec<Episode> {
@@ -630,7 +640,9 @@ pub fn c10(seed: u64, tier: Tier) -> Vec<Episode> {
     let cfg = HistCfg { maps: maps.clone(), alphabet: g.rng.range(2, 60) as usize, kd: KeyDist::Short, vd: ValDist::Tiny, steps: g.rng.range(10, 150) as usize, w, one_bucket: false, reopen_params: false, xproc_every: if thorough { 1 } else { 0 }, bulk_max: 10 };
     let st = history(&mut g, &cfg);
     let checks = Checks { model: true, typed: true, iter: true, audit_traverse: true, audit_every: 50, ..Default::default() };
-    vec![base_episode("C10", "typed-keys", seed, maps, st, checks)]
+    let mut ep = base_episode("C10", "typed-keys", seed, maps, st, checks);
+    ep.buggify = buggify(&mut g, seed);
+    vec![ep]
 }
 
 pub fn c11(seed: u64, tier: Tier) -> Vec<Episode> {
@@ -656,7 +668,9 @@ pub fn c11(seed: u64, tier: Tier) -> Vec<Episode> {
     let cfg = HistCfg { maps: maps.clone(), alphabet: g.rng.range(2, 16) as usize, kd: KeyDist::Short, vd, steps: g.rng.range(20, 250) as usize, w, one_bucket: false, reopen_params: false, xproc_every: 0, bulk_max: 5 };
     let st = history(&mut g, &cfg);
     let checks = Checks { model: true, isolation: true, file_names: true, audit_every: 40, iter: true, ..Default::default() };
-    vec![base_episode("C11", "interleaved-maps", seed, maps, st, checks)]
+    let mut ep = base_episode("C11", "interleaved-maps", seed, maps, st, checks);
+    ep.buggify = buggify(&mut g, seed);
+    vec![ep]
 }
 
 pub fn c12(seed: u64, tier: Tier, index: u64) -> Vec<Episode> {
@@ -674,7 +688,9 @@ pub fn c12(seed: u64, tier: Tier, index: u64) -> Vec<Episode> {
         let cfg = HistCfg { maps: maps.clone(), alphabet, kd, vd, steps, w, one_bucket: false, reopen_params: false, xproc_every: 0, bulk_max: 0 };
         let st = history(&mut g, &cfg);
         let checks = Checks { decode_every: 8, decode_on_close: true, ..Default::default() };
-        return vec![base_episode("C12", "fresh-layout", seed, maps, st, checks)];
+        let mut ep = base_episode("C12", "fresh-layout", seed, maps, st, checks);
+        ep.buggify = buggify(&mut g, seed);
+        return vec![ep];
     }
     let gi = (index / 3 * 2 + index % 3) as usize;
     let name = &goldens[gi % goldens.len()];
@@ -715,6 +731,7 @@ pub fn c12(seed: u64, tier: Tier, index: u64) -> Vec<Episode> {
     let checks = Checks { model: true, audit_every: 32, audit_traverse: true, iter: true, decode_on_close: true, decode_every: 16, panics: true, reopen_must_succeed: true, ..Default::default() };
     let mut ep = base_episode("C12", "golden", seed, maps, st, checks);
     ep.preload = Some(name.clone());
+    ep.buggify = buggify(&mut g, seed);
     vec![ep]
 }
 
@@ -862,7 +879,9 @@ pub fn c14(seed: u64, tier: Tier) -> Vec<Episode> {
     let cfg = HistCfg { maps: maps.clone(), alphabet: g.rng.range(2, 80) as usize, kd: KeyDist::Short, vd, steps: g.rng.range(5, 80) as usize, w, one_bucket: false, reopen_params: false, xproc_every: 0, bulk_max };
     let st = history(&mut g, &cfg);
     let checks = Checks { model: true, audit_every: 20, ..Default::default() };
-    vec![base_episode("C14", "bulk", seed, maps, st, checks)]
+    let mut ep = base_episode("C14", "bulk", seed, maps, st, checks);
+    ep.buggify = buggify(&mut g, seed);
+    vec![ep]
 }
 
 fn readonly_session(g: &mut Gen, maps: &[MapSpec], keys: &[Vec<Key>], n: usize) -> Vec<Step> {
@@ -951,7 +970,9 @@ pub fn c15(seed: u64, tier: Tier) -> Vec<Episode> {
     st.push(Step::Audit);
     st.push(Step::CloseCompare { tag: 0 });
     let checks = Checks { model: true, audit_traverse: true, ..Default::default() };
-    vec![base_episode("C15", "readonly-session", seed, maps, st, checks)]
+    let mut ep = base_episode("C15", "readonly-session", seed, maps, st, checks);
+    ep.buggify = buggify(&mut g, seed);
+    vec![ep]
 }
 
 pub fn c16(seed: u64, tier: Tier) -> Vec<Episode> {
@@ -1081,7 +1102,9 @@ pub fn c17(seed: u64, tier: Tier) -> Vec<Episode> {
     let mut st = history(&mut g, &cfg);
     st.push(Step::Stats { h: 0 });
     let checks = Checks { stats: true, ..Default::default() };
-    vec![base_episode("C17", name, seed, maps, st, checks)]
+    let mut ep = base_episode("C17", name, seed, maps, st, checks);
+    ep.buggify = buggify(&mut g, seed);
+    vec![ep]
 }
 
 pub fn c18(seed: u64, tier: Tier, index: u64) -> Vec<Episode> {
@@ -1108,6 +1131,7 @@ pub fn c18(seed: u64, tier: Tier, index: u64) -> Vec<Episode> {
     let cfg = HistCfg { maps: maps.clone(), alphabet: g.rng.range(2, 30) as usize, kd: KeyDist::Mixed, vd, steps: g.rng.range(10, 200) as usize, w, one_bucket: false, reopen_params: false, xproc_every: 0, bulk_max: 6 };
     let st = history(&mut g, &cfg);
     let mut ep = base_episode("C18", "twice", seed, maps, st, Checks::default());
+    ep.buggify = buggify(&mut g, seed);
     let xproc_b = thorough || index % 8 == 0;
     ep.plan = Plan::Twice { poison_a: 0, poison_b: *g.rng.pick(&[0x5au8, 0xa5, 0xff, 0x01]), xproc_b };
     vec![ep]
